@@ -102,7 +102,8 @@ func (m *MapCodec) New(r *ReadBuf) unsafe.Pointer {
 }
 
 func (m *MapCodec) Omit(p unsafe.Pointer) bool {
-	return m.omitEmpty && maplen(p) == 0
+	// p is a pointer to the map variable, as in Read and Write.
+	return m.omitEmpty && maplen(*(*unsafe.Pointer)(p)) == 0
 }
 
 func (m *MapCodec) Write(w *WriteBuf, p unsafe.Pointer) {
